@@ -198,9 +198,23 @@ def _cat_pred(cfg):
     return pred
 
 
+def _off_edge(p):
+    """Gate parameters exactly on special values or at least 1e-6 away from 0 / 1: the catalogue's 1e-9-off-special exponents
+    and angles probe the tolerance windows of the analytical synthesis routines, which is C15's subject, not the pipeline's."""
+    out = []
+    for x in p:
+        if isinstance(x, (float, np.floating)):
+            x = float(x)
+            for base in (0.0, 1.0):
+                if 0 < abs(x - base) < 1e-6:
+                    x = base
+        out.append(x)
+    return tuple(out)
+
+
 def _cat_step(rng, n, cfg, arity_w=(0.03, 0.42, 0.40, 0.15)):
     st = P.gen_unitary_step(rng, (2,) * n, _cat_pred(cfg), arity_w=arity_w)
-    return _U(st["spec"], st["p"], st["w"])
+    return _U(st["spec"], _off_edge(st["p"]), st["w"])
 
 
 # =========================================================================== gateset configurations + membership tables
@@ -445,9 +459,9 @@ def _native_step(rng, n, cfg):
         return _U(name, p, _wires(rng, n, 3))
     if r < 0.5 and cfg["native2"]:
         name, p = cfg["native2"][int(rng.integers(len(cfg["native2"])))]
-        return _U(name, sp[name].sample(rng) if p is None else p, _wires(rng, n, 2))
+        return _U(name, _off_edge(sp[name].sample(rng)) if p is None else p, _wires(rng, n, 2))
     name = cfg["native1"][int(rng.integers(len(cfg["native1"])))]
-    return _U(name, sp[name].sample(rng), _wires(rng, n, 1))
+    return _U(name, _off_edge(sp[name].sample(rng)), _wires(rng, n, 1))
 
 
 def _gen_input(rng, cfg, kind):
@@ -662,6 +676,11 @@ def sec_gatesets(ctx, rng, case):
             if any(s["spec"] == "Matrix2x2x2" for s in _flat(items)):
                 tol = max(tol, 1e-5)
             d = L.phase_diff(got, want)
+            if d > tol and mk == "AQTTargetGateset" and _aqt_unwrap_explains(items, n, got, tol):
+                _known(ctx, AQT_MECH, "AQTTargetGateset._decompose_single_qubit_operation unwraps a one-moment single-qubit "
+                       "CircuitOperation to its first operation and loses its repetitions (keep-old branch next to a native XX "
+                       "gate): output differs from the input by %.3g and equals the input with those blocks applied once" % d, **wit)
+                d = 0.0
             ctx.check(d <= tol, "equivalent", "C07:not-equivalent:" + mk,
                       lambda: "output unitary differs from the input program by %.3g (up to global phase, tol %g)" % (d, tol),
                       diff=d, output=[repr(o)[:160] for o in out_ops[:40]], **wit)
@@ -706,6 +725,21 @@ def _known(ctx, mech, msg, **wit):
 def _tb_has(e, *needles):
     txt = "".join(traceback.format_exception(type(e), e, e.__traceback__))
     return all(n in txt for n in needles)
+
+
+AQT_MECH = "C07:aqt-single-qubit-unwrap-drops-circuit-operation-repetitions"
+
+
+def _aqt_unwrap_explains(items, n, got, tol):
+    """Explained-by: the output equals the input program in which every one-moment single-qubit block is applied once."""
+    mod, hit = [], False
+    for it in items:
+        if it["t"] == "B" and it["reps"] != 1 and len(it["body"]) == 1 and len(it["body"][0].get("w", ())) == 1:
+            mod.append(dict(it, reps=1))
+            hit = True
+        else:
+            mod.append(it)
+    return hit and L.phase_diff(got, _ref_unitary(mod, n)) <= tol
 
 
 PHASE_MECH = "C07:ionq-native-gateset-emits-global-phase-it-rejects(ignore_failures=False)"
@@ -1513,7 +1547,7 @@ def sec_devices(ctx, rng, case):
 
 
 SECTIONS = [
-    ("gatesets", sec_gatesets, 8000, 110000, 3.0),
-    ("routing", sec_routing, 5000, 60000, 1.2),
-    ("devices", sec_devices, 1400, 16000, 0.5),
+    ("gatesets", sec_gatesets, 14000, 110000, 3.0),
+    ("routing", sec_routing, 8000, 60000, 1.2),
+    ("devices", sec_devices, 2400, 16000, 0.5),
 ]
